@@ -193,3 +193,113 @@ def first_diff(case, obs):
     while i < len(e) and i < len(a) and e[i] == a[i]:
         i += 1
     return i, (e[i] if i < len(e) else "-"), (a[i] if i < len(a) else "-")
+
+
+# ---------------------------------------------------------------------------------------------------------------
+# C13: test files for `ego test` (spec/TestRunner).  A case is {file: [{k, v}...], report, passed, failed, status}.
+# The table below is the source text of every (kind, variant) of spec/TestRunner/TestRunner.tla: Variants(k).
+# $N is replaced by the block's unique name; nothing here says what a block's result is (TLC does: Want(k)).
+
+_BOX = "\ttype box struct {\n\t\ta int\n\t}\n\tb := box{a: 1}\n"
+_DIV = "\tz := 0\n\tz = 1 / z\n"
+TEST_BODIES = {
+    ("pass", "plain"): "{\n\tx := 1\n\t@assert x == 1\n}\n",
+    ("pass", "caught"): "{\n\tn := 0\n\ttry {\n\t\tz := 0\n\t\tz = 1 / z\n\t} catch {\n\t\tn = 1\n\t}\n\t@assert n == 1\n}\n",
+    ("pass", "recover"): "{\n\tn := 0\n\tf := func() {\n\t\tdefer func() {\n\t\t\tr := recover()\n\t\t\t_ = r\n\t\t\tn = 7\n\t\t}()\n"
+                         "\t\tpanic(\"boom\")\n\t}\n\tf()\n\t@assert n == 7\n}\n",
+    ("pass", "decl"): "{\n" + _BOX + "\t@assert b.a == 1\n}\n",
+    ("pass", "output"): "{\n\tfmt.Println(\"output of $N\")\n\t@assert 1 == 1\n}\n",
+    ("pass", "return"): "{\n\tx := 1\n\tif x == 1 {\n\t\treturn\n\t}\n\t@assert x == 2\n}\n",
+    ("pass", "loopjump"): "{\n\tn := 0\n\tfor i := 0; i < 2; i++ {\n\t\ttry {\n\t\t\tn = n + 1\n\t\t\tbreak\n\t\t} catch {\n\t\t\tn = 100\n\t\t}\n\t}\n"
+                          "\t@assert n == 1\n}\n",
+    ("assert", "plain"): "{\n\ty := 2\n\t@assert y == 3\n}\n",
+    ("assert", "decl"): "{\n" + _BOX + "\t@assert b.a == 2\n}\n",
+    ("assert", "loop"): "{\n\tfor i := 0; i < 3; i++ {\n\t\t@assert i < 1\n\t}\n}\n",
+    ("assert", "incatch"): "{\n\ttry {\n" + _DIV.replace("\t", "\t\t") + "\t} catch {\n\t\t@assert 1 == 2\n\t}\n}\n",
+    ("assert", "infunc"): "{\n\tf := func(v int) {\n\t\tdefer fmt.Sprintf(\"%d\", v)\n\t\t@assert v == 2\n\t}\n\tf(1)\n}\n",
+    ("rterr", "plain"): "{\n" + _DIV + "}\n",
+    ("rterr", "infunc"): "{\n\tg := func(v int) int {\n\t\tdefer fmt.Sprintf(\"%d\", v)\n\t\treturn 1 / v\n\t}\n\th := func() int {\n\t\treturn g(0)\n\t}\n"
+                         "\tk := h()\n\t@assert k == 0\n}\n",
+    ("rterr", "incatch"): "{\n\ttry {\n" + _DIV.replace("\t", "\t\t") + "\t} catch {\n\t\tw := 0\n\t\tw = 1 / w\n\t}\n}\n",
+    ("rterr", "afterjump"): "{\n\tfor i := 0; i < 2; i++ {\n\t\ttry {\n\t\t\tcontinue\n\t\t} catch {\n\t\t\ti = 5\n\t\t}\n\t}\n" + _DIV + "}\n",
+    ("rterr", "output"): "{\n\tfmt.Println(\"output of $N\")\n" + _DIV + "}\n",
+    ("rterr", "decl"): "{\n" + _BOX + "\tb.a = 0\n\tb.a = 1 / b.a\n}\n",
+    ("cerr", "expr"): "{\n\tw :=\n\t@assert w == 1\n}\n",
+    ("cerr", "paren"): "{\n\tw := (1 +\n\t@assert w == 1\n}\n",
+    ("cerr", "openbrace"): "{\n\ty := 2\n\tif y == 2 {\n\t\ty = 3\n\t@assert y == 3\n}\n",
+    ("cerr", "closebrace"): "{\n\ty := 2\n\t}\n\t@assert y == 2\n}\n",
+    ("cerr", "decl"): "{\n" + _BOX + "\tb.a =\n\t@assert b.a == 1\n}\n",
+    ("cerr", "unused"): "{\n\tq := 1\n}\n",
+    ("fail", "plain"): "{\n\t@fail \"stop $N\"\n}\n",
+    ("fail", "intry"): "{\n\ttry {\n\t\t@fail \"stop $N\"\n\t} catch {\n\t\tfmt.Println(\"caught\")\n\t}\n}\n",
+}
+
+
+def render_testfile(case, fid, first_line=1):
+    """-> (text, blocks) where blocks = [{name, lo, hi}] (line range of each @test block in this file).
+    The file starts with comment lines so that its first block begins at line `first_line`: line numbers in error
+    messages then identify the block among all files handed to one `ego test` process."""
+    lines = ["// %s" % fid] * (first_line - 1)
+    blocks = []
+    for i, t in enumerate(case["file"]):
+        name = "%s.%d %s %s" % (fid, i + 1, t["k"], t["v"])
+        lo = len(lines) + 1
+        lines.append('@test "%s"' % name)
+        lines += TEST_BODIES[(t["k"], t["v"])].replace("$N", name).rstrip("\n").split("\n")
+        lines.append("")
+        blocks.append({"name": name, "lo": lo, "hi": len(lines)})
+    return "\n".join(lines) + "\n", blocks
+
+
+_TLINE = re.compile(r"^TEST: (\S+ \S+ \S+)\s+\((PASS|FAIL|OUTPUT)\)")
+_SUMM = re.compile(r"^TEST: Completed(?: a total of (\d+))? tests(?:, (\d+) failed)?")
+
+
+def observe_tests(stdout, stderr, blocks):
+    """What one `ego test` process reported: {"report": [(name, PASS|FAIL|ABORT)...] in order of first mention,
+    "total": n, "failed": n, "unattributed": [lines]}.  A block counts as reported FAIL when its (FAIL) line appears or
+    an error line names it / points into its line range (the tool prints only the error line for run-time failures)."""
+    byname = {b["name"]: b for b in blocks}
+    rep, seen, loose = [], set(), []
+    total = failed = None
+
+    def note(name, r):
+        if name not in seen:
+            seen.add(name)
+            rep.append((name, r))
+
+    def owner(line):
+        for b in blocks:
+            if b["name"] in line:
+                return b["name"]
+        m = re.search(r"\(line (\d+)", line)
+        if m:
+            n = int(m.group(1))
+            for b in blocks:
+                if b["lo"] <= n <= b["hi"]:
+                    return b["name"]
+        return None
+    for line in stdout.splitlines():
+        m = _TLINE.match(line)
+        if m and m.group(1) in byname:
+            if m.group(2) != "OUTPUT":
+                note(m.group(1), m.group(2))
+            continue
+        m = _SUMM.match(line)
+        if m:
+            total, failed = int(m.group(1) or 0), int(m.group(2) or 0)
+            continue
+        if line.strip().startswith("Error:"):
+            o = owner(line)
+            if o:
+                note(o, "FAIL")
+            else:
+                loose.append(line)
+    for line in stderr.splitlines():
+        if line.startswith("Error:") and "terminated with errors" not in line:
+            o = owner(line)
+            if o and "stop " + o in line:
+                note(o, "ABORT")
+            else:
+                loose.append(line)
+    return {"report": rep, "total": total, "failed": failed, "unattributed": loose}
